@@ -1040,7 +1040,9 @@ func (c *Compiler) compileList(node *ast.List) error {
 func (c *Compiler) compileMap(node *ast.Map) error {
 	items := node.Items()
 	count := len(items)
-	for k, v := range items {
+	// Emit the entries in source order so that the bytecode is deterministic
+	for _, k := range node.Keys() {
+		v := items[k]
 		switch k := k.(type) {
 		case *ast.String:
 			if err := c.compile(k); err != nil {
